@@ -34,6 +34,7 @@ RULE += (' Also: the decorator applied directly with typed (lru_cache(fn, True))
 RULE += (' Also: re-entrant histories with warm-up nodes (the first run for an argument calls the cache for the same argument).')
 RULE += (' Also: re-entrant histories in which a run clears the cache it is computed for.')
 RULE += (' Also: transient failures in re-entrant histories (the first-started run for an argument fails after its warm-up call succeeded).')
+RULE += (' Also: a cache stacked on a cache against two functools layers (clears of either layer, direct calls of the inner one).')
 ASSUMPTIONS = ["functools.lru_cache (C implementation of the running 3.12 interpreter) is the reference",
                "cache_discard has no stdlib twin: reference is the cross-validated model"]
 EXHAUSTIVE_SUBSPACES = 'all histories of length <= 4 (thorough: 5) over 7 operations for maxsize 1 and 2'
@@ -86,6 +87,14 @@ def cases(tier, seed, shard, nshards):
         if k % nshards == shard:
             yield {"kind": "attrs", "maxsize": maxsize, "typed": typed, "form": form}
     rng = random.Random(f"C10-{seed}-{shard}")
+    for _ in range(max(8, N_RANDOM[tier] // nshards // 40)):
+        ops = []
+        for _ in range(rng.randint(1, 10)):
+            r = rng.random()
+            ops.append(["call", rng.randrange(4)] if r < 0.7 else ["call_inner", rng.randrange(4)] if r < 0.8
+                       else ["clear_outer"] if r < 0.9 else ["clear_inner"])
+        yield {"kind": "stacked", "outer": rng.choice([None, 0, 1, 2, 3, "default"]), "inner": rng.choice([None, 0, 1, 2, 3, "default"]),
+               "ops": ops}
     # re-entrant histories: the wrapped function calls its own cache for other arguments (recursion deeper than
     # maxsize, shared sub-problems); still one sequential history, with a synchronous twin under functools
     for _ in range(N_RANDOM[tier] // nshards // 12):
@@ -555,7 +564,54 @@ def run_construct(case, stats):
     return {"violations": viols, "nontrivial": True, "sig": ("construct", str(case))}
 
 
+def run_stacked(case, stats):
+    """A cache stacked on a cache (of the same library) of one function: two independent caches - each with its own
+    store, size and statistics - exactly like two functools.lru_cache layers."""
+    CTX.reset()
+    loga, logs = [], []
+
+    async def af(x):
+        loga.append(x)
+        return (x, len(loga))
+
+    def sf(x):
+        logs.append(x)
+        return (x, len(logs))
+
+    def layer(mod, fn, size):
+        return mod.lru_cache(fn) if size == "default" else mod.lru_cache(maxsize=size)(fn)
+
+    ia, is_ = layer(A, af, case["inner"]), layer(functools, sf, case["inner"])
+    oa, os_ = layer(A, ia, case["outer"]), layer(functools, is_, case["outer"])
+    viols = []
+    head = f"lru_cache(maxsize={case['outer']}) stacked on lru_cache(maxsize={case['inner']})"
+    for i, op in enumerate(case["ops"]):
+        if op[0] == "call":
+            ra, rs = _outcome(lambda: run_sync(oa(op[1]))), _outcome(lambda: os_(op[1]))
+        elif op[0] == "call_inner":
+            ra, rs = _outcome(lambda: run_sync(ia(op[1]))), _outcome(lambda: is_(op[1]))
+        elif op[0] == "clear_outer":
+            oa.cache_clear(); os_.cache_clear()
+            ra = rs = None
+        else:
+            ia.cache_clear(); is_.cache_clear()
+            ra = rs = None
+        state_a = (ra, tuple(oa.cache_info()), tuple(ia.cache_info()), list(loga))
+        state_s = (rs, tuple(os_.cache_info()), tuple(is_.cache_info()), list(logs))
+        if state_a != state_s:
+            viols.append({"key": "lru_cache/stacked-caches",
+                          "msg": f"{head}: after op {i} of {case['ops']}: (result, outer cache_info, inner cache_info, "
+                                 f"invocations) {state_a} vs functools {state_s}"[:900]})
+            break
+    if CTX.foreign:
+        viols.append({"key": "lru_cache/suspends-without-user-awaitable", "msg": CTX.foreign[0]})
+    stats["stacked_cache_histories"] += 1
+    return {"violations": viols, "nontrivial": True, "sig": ("stacked", str(case))}
+
+
 def run_case(case, stats: Counter):
+    if case.get("kind") == "stacked":
+        return run_stacked(case, stats)
     if case.get("kind") == "reentrant":
         return run_reentrant(case, stats)
     if case.get("kind") == "construct":
